@@ -331,8 +331,37 @@ func genC09(t *rapid.T) c09Case {
 	})
 	// unknown keys are ignored
 	for i := rapid.IntRange(0, 2).Draw(t, "unknownKeys"); i > 0; i-- {
-		v := model.Elem{U: 1}
-		add(Assign{Name: nm.draw(t), Kind: model.U1, Elem: &v})
+		v := model.Elem{U: uint64(rapid.SampledFrom([]int{1, 0, 200, 7}).Draw(t, "unknownVal"))}
+		name := nm.draw(t)
+		have := c.Tree.Variables()
+		switch k := rapid.IntRange(0, 9).Draw(t, "unknownKeyForm"); {
+		case k == 9:
+			name = "" // no variable has the empty name
+		case k == 8:
+			name = " "
+		case k >= 5 && len(have) > 0:
+			// a near miss of a name the template has: longer, shorter, other letter case, indexed
+			base := rapid.SampledFrom(have).Draw(t, "nearName")
+			if !model.IsEllipsisName(base) {
+				cand := []string{base + "_", base + "0", base + "[0]", swapLetterCase(base)}
+				if len(base) > 1 {
+					cand = append(cand, base[:len(base)-1], base[1:])
+				}
+				name = rapid.SampledFrom(cand).Draw(t, "nearForm")
+				for _, h := range have {
+					if h == name {
+						name = nm.draw(t)
+					}
+				}
+			}
+		}
+		switch rapid.IntRange(0, 3).Draw(t, "unknownValKind") {
+		case 3:
+			str := "zz"
+			add(Assign{Name: name, Kind: model.A, Str: &str})
+		default:
+			add(Assign{Name: name, Kind: model.U1, Elem: &v})
+		}
 	}
 	if rapid.IntRange(0, 3).Draw(t, "asMessage") == 3 {
 		h := genHdr(t, false)
@@ -346,4 +375,17 @@ func genC09(t *rapid.T) c09Case {
 
 func TestC09(t *testing.T) {
 	rapidProp(t, "C09", "c09", genC09, checkC09)
+}
+
+func swapLetterCase(s string) string {
+	b := []byte(s)
+	for i, ch := range b {
+		switch {
+		case ch >= 'a' && ch <= 'z':
+			b[i] = ch - 32
+		case ch >= 'A' && ch <= 'Z':
+			b[i] = ch + 32
+		}
+	}
+	return string(b)
 }
